@@ -24,7 +24,9 @@
 EXTENDS Integers, Sequences, FiniteSets, TLC
 CONSTANTS Mutant,      \* 0 = faithful; > 0 = seeded spec mutation (negative controls)
           MaxSends,    \* messages the application may send
-          MaxOps       \* application operations after "start"
+          MaxOps,      \* application operations after "start" (per RPC)
+          MaxRPCs,     \* RPCs issued one after the other on the same channel (the token bucket is per channel)
+          ParkOn       \* TRUE: a SendMsg may be parked after its transport write (second application goroutine)
 
 CLOSE == 0
 MsgLen(i) == 8 + 2 * i            \* payload length of message i (10, 12, ...)
@@ -55,7 +57,7 @@ VARIABLES cfg,          \* [maxAtt, cap, codes, bufLimit, thrMax, boff]  (consta
           replay,       \* cs.replayBuffer (without the stream-creation op)
           bufSize,      \* cs.replayBufferSize
           committed, finished, firstAtt, numRetries, sincePB,
-          tokens,       \* retryThrottler.tokens (ratio 1); 0 when throttling is off
+          tokens,       \* retryThrottler.tokens in HALF tokens (tokenRatio 0.5 = 1 unit); 0 when throttling is off
           natt,         \* attempts (streams) created
           nTransp,      \* transparent attempts created
           cur,          \* current attempt
@@ -64,9 +66,14 @@ VARIABLES cfg,          \* [maxAtt, cap, codes, bufLimit, thrMax, boff]  (consta
           hdrDelivered, msgDelivered,
           lastDelay,    \* <<kind, k-or-pushback>> of the last created attempt
           sinceA,       \* Level A: retries since the last retry that was delayed by a server pushback
+          nrpc,         \* number of the current RPC on this channel
+          parked,       \* message whose SendMsg has written to attempt parkedAtt but has not re-taken cs.mu (0: none)
+          parkedAtt,
+          resend,       \* the running "send" re-executes a parked SendMsg (the application produced the message before)
           viol
 rvars == <<cfg, app, replay, bufSize, committed, finished, firstAtt, numRetries, sincePB, tokens, natt,
-           nTransp, cur, pc, opk, oparg, nops, res, hdrDelivered, msgDelivered, lastDelay, sinceA, viol>>
+           nTransp, cur, pc, opk, oparg, nops, res, hdrDelivered, msgDelivered, lastDelay, sinceA, nrpc, parked, parkedAtt,
+           resend, viol>>
 
 NoAtt == [act |-> "none", code |-> 0, pb |-> "none", trig |-> "open", sent |-> <<>>, nrecv |-> 0,
           fresh |-> FALSE, prev |-> 0, transp |-> FALSE]
@@ -74,21 +81,24 @@ EffMax == Min(cfg.maxAtt, cfg.cap)
 
 RInitWith(c) ==
   /\ cfg = c /\ app = <<>> /\ replay = <<>> /\ bufSize = 0 /\ committed = FALSE /\ finished = FALSE
-  /\ firstAtt = TRUE /\ numRetries = 0 /\ sincePB = 0 /\ tokens = c.thrMax /\ natt = 0 /\ nTransp = 0
+  /\ firstAtt = TRUE /\ numRetries = 0 /\ sincePB = 0 /\ tokens = 2 * c.thrMax /\ natt = 0 /\ nTransp = 0
   /\ cur = NoAtt /\ pc = "run" /\ opk = "start" /\ oparg = 0 /\ nops = 0 /\ res = "none"
   /\ hdrDelivered = FALSE /\ msgDelivered = FALSE /\ lastDelay = <<"none", 0>> /\ sinceA = 0 /\ viol = "none"
+  /\ nrpc = 1 /\ parked = 0 /\ parkedAtt = 0 /\ resend = FALSE
 
 \* the same, as a step (trace validation: a new RPC on a fresh channel)
 ResetWith(c) ==
   /\ cfg' = c /\ app' = <<>> /\ replay' = <<>> /\ bufSize' = 0 /\ committed' = FALSE /\ finished' = FALSE
-  /\ firstAtt' = TRUE /\ numRetries' = 0 /\ sincePB' = 0 /\ tokens' = c.thrMax /\ natt' = 0 /\ nTransp' = 0
+  /\ firstAtt' = TRUE /\ numRetries' = 0 /\ sincePB' = 0 /\ tokens' = 2 * c.thrMax /\ natt' = 0 /\ nTransp' = 0
   /\ cur' = NoAtt /\ pc' = "run" /\ opk' = "start" /\ oparg' = 0 /\ nops' = 0 /\ res' = "none"
   /\ hdrDelivered' = FALSE /\ msgDelivered' = FALSE /\ lastDelay' = <<"none", 0>> /\ sinceA' = 0 /\ viol' = "none"
+  /\ nrpc' = 1 /\ parked' = 0 /\ parkedAtt' = 0 /\ resend' = FALSE
 
 \* ---------------------------------------------------------------- the current attempt, as the client sees it
 InSeq(x, s) == \E j \in 1..Len(s) : s[j] = x
 \* the server has answered (or will answer without further application input)
-Responded(c) == c.trig = "open" \/ InSeq(CLOSE, c.sent)
+\* triggers: "open" stream opened, "late" END_STREAM received, "m2" message 2 received
+Responded(c) == c.trig = "open" \/ (c.trig = "late" /\ InSeq(CLOSE, c.sent)) \/ (c.trig = "m2" /\ InSeq(2, c.sent))
 \* for a non-blocking operation (send/close): the answer has already been processed by the client
 StreamDone(c) == ~c.fresh /\ Responded(c)
 RecvOutcome(c) ==
@@ -98,11 +108,11 @@ RecvOutcome(c) ==
 \* the operation, run on the current attempt, ends with an error that retryLocked gets to see
 OpFails ==
   CASE opk = "send"   -> StreamDone(cur) /\ cur.act # "OK"
-    [] opk = "header" -> ~HasHdr(cur)
-    [] opk = "recv"   -> RecvOutcome(cur) = "err"
+    [] opk = "header" -> Responded(cur) /\ ~HasHdr(cur)
+    [] opk = "recv"   -> Responded(cur) /\ RecvOutcome(cur) = "err"
     [] OTHER -> FALSE
-DecTok(t) == IF cfg.thrMax = 0 THEN 0 ELSE Max(t - 1, 0)
-Throttled(t) == cfg.thrMax > 0 /\ 2 * t <= cfg.thrMax
+DecTok(t) == IF cfg.thrMax = 0 THEN 0 ELSE Max(t - 2, 0)        \* one token = 2 units, floor 0
+Throttled(t) == cfg.thrMax > 0 /\ t <= cfg.thrMax                \* tokens <= maxTokens / 2
 \* csAttempt.shouldRetry for the finished attempt c
 Decide(c) ==
   IF firstAtt /\ c.act \in Unproc THEN [ok |-> TRUE, transp |-> TRUE, why |-> "transparent", tok |-> tokens]
@@ -126,9 +136,13 @@ ViolOf(c, transp, tokAfter) ==
   ELSE "none"
 
 \* ---------------------------------------------------------------- micro steps
-Script(s) == s.act \in Acts /\ s.pb \in PBs /\ s.trig \in {"open", "late"}
-\* a blocking operation must not wait for an answer that needs application input it cannot give
-ScriptOK(s) == (opk \in {"header", "recv"} /\ ~InSeq(CLOSE, app)) => s.trig = "open"
+Script(s) == s.act \in Acts /\ s.pb \in PBs /\ s.trig \in {"open", "late", "m2"}
+\* a blocking operation must not wait for an answer that needs application input it cannot give: the new attempt
+\* is sent the replay buffer; the only further input that can arrive while the receiver blocks is a parked message
+ScriptOK(s) == opk \in {"header", "recv"} =>
+                 \/ s.trig = "open"
+                 \/ s.trig = "late" /\ InSeq(CLOSE, replay)
+                 \/ s.trig = "m2" /\ (InSeq(2, replay) \/ parked = 2)
 
 NewAttempt(s) ==
   /\ pc = "run" /\ NeedAttempt /\ ScriptOK(s)
@@ -149,7 +163,8 @@ NewAttempt(s) ==
             /\ viol' = IF viol = "none" THEN ViolOf(cur, d.transp, d.tok) ELSE viol
             /\ cur' = [act |-> s.act, code |-> s.code, pb |-> s.pb, trig |-> s.trig, sent |-> replay, nrecv |-> 0,
                        fresh |-> TRUE, prev |-> nr, transp |-> d.transp]
-  /\ UNCHANGED <<cfg, app, replay, bufSize, committed, finished, pc, opk, oparg, nops, res, hdrDelivered, msgDelivered>>
+  /\ UNCHANGED <<cfg, app, replay, bufSize, committed, finished, pc, opk, oparg, nops, res, hdrDelivered, msgDelivered,
+                 nrpc, parked, parkedAtt, resend>>
 
 \* bufferForRetryLocked(sz, op)
 BufferOp(x, sz) ==
@@ -162,12 +177,13 @@ FailTok == IF ~committed /\ ~finished /\ OpFails THEN Decide(cur).tok ELSE token
 
 Ret ==
   /\ pc = "run" /\ ~NeedAttempt
-  /\ pc' = "idle"
+  /\ opk \in {"header", "recv"} => Responded(cur)      \* otherwise the receiver is blocked
+  /\ pc' = "idle" /\ resend' = FALSE
   /\ CASE opk = "start" ->
             /\ res' = "ok" /\ cur' = [cur EXCEPT !.fresh = FALSE]
             /\ UNCHANGED <<app, replay, bufSize, committed, finished, tokens, hdrDelivered, msgDelivered>>
        [] opk = "send" ->
-            /\ app' = Append(app, oparg)
+            /\ app' = IF resend THEN app ELSE Append(app, oparg)
             /\ IF ~StreamDone(cur)
                  THEN /\ cur' = [cur EXCEPT !.sent = Append(@, oparg), !.fresh = FALSE]
                       /\ BufferOp(oparg, MsgSize(oparg)) /\ res' = "ok"
@@ -181,6 +197,9 @@ Ret ==
                               /\ finished' = (Decide(cur).why = "max")
                               /\ res' = IF Decide(cur).why = "max" THEN "err" ELSE "eof"
             /\ UNCHANGED <<hdrDelivered, msgDelivered>>
+       [] opk = "sendbuf" ->       \* a parked SendMsg resumes and its attempt is still the current one: onSuccess only
+            /\ BufferOp(oparg, MsgSize(oparg)) /\ res' = "ok" /\ cur' = [cur EXCEPT !.fresh = FALSE]
+            /\ UNCHANGED <<app, finished, tokens, hdrDelivered, msgDelivered>>
        [] opk = "close" ->
             /\ app' = Append(app, CLOSE)
             /\ cur' = [cur EXCEPT !.sent = IF StreamDone(cur) THEN @ ELSE Append(@, CLOSE), !.fresh = FALSE]
@@ -200,16 +219,17 @@ Ret ==
             /\ committed' = TRUE /\ replay' = <<>>
             /\ msgDelivered' = (msgDelivered \/ o = "msg")
             /\ finished' = (o # "msg")
-            /\ tokens' = IF o = "eof" THEN Min(tokens + 1, cfg.thrMax) ELSE IF o = "err" THEN FailTok ELSE tokens
+            /\ tokens' = IF o = "eof" THEN Min(tokens + 1, 2 * cfg.thrMax) ELSE IF o = "err" THEN FailTok ELSE tokens
             /\ res' = o
             /\ UNCHANGED <<app, bufSize, hdrDelivered>>
-  /\ UNCHANGED <<cfg, firstAtt, numRetries, sincePB, natt, nTransp, opk, oparg, nops, lastDelay, sinceA, viol>>
+  /\ UNCHANGED <<cfg, firstAtt, numRetries, sincePB, natt, nTransp, opk, oparg, nops, lastDelay, sinceA, viol,
+                 nrpc, parked, parkedAtt>>
 
 NSends == Cardinality({j \in 1..Len(app) : app[j] # CLOSE})
 BeginOK(op, i) ==
   /\ pc = "idle" /\ ~finished /\ nops < MaxOps
-  /\ CASE op = "send"   -> ~InSeq(CLOSE, app) /\ i = NSends + 1 /\ i <= MaxSends
-       [] op = "close"  -> ~InSeq(CLOSE, app) /\ i = 0
+  /\ CASE op = "send"   -> ~InSeq(CLOSE, app) /\ i = NSends + 1 /\ i <= MaxSends /\ parked = 0
+       [] op = "close"  -> ~InSeq(CLOSE, app) /\ i = 0 /\ parked = 0
        [] op = "header" -> Responded(cur) /\ i = 0
        [] op = "recv"   -> Responded(cur) /\ i = 0
        [] OTHER -> FALSE
@@ -217,7 +237,49 @@ Begin(op, i) ==
   /\ BeginOK(op, i)
   /\ pc' = "run" /\ opk' = op /\ oparg' = i /\ nops' = nops + 1
   /\ UNCHANGED <<cfg, app, replay, bufSize, committed, finished, firstAtt, numRetries, sincePB, tokens, natt, nTransp,
-                 cur, res, hdrDelivered, msgDelivered, lastDelay, sinceA, viol>>
+                 cur, res, hdrDelivered, msgDelivered, lastDelay, sinceA, viol, nrpc, parked, parkedAtt, resend>>
+
+\* ---- a second application goroutine: SendMsg(i) has written message i to the current attempt (csAttempt.sendMsg
+\* returned nil) and is parked before withRetry re-takes cs.mu; the receiver goroutine may run header / recv meanwhile
+ParkOK(i) ==
+  /\ ParkOn /\ pc = "idle" /\ ~finished /\ nops < MaxOps /\ parked = 0 /\ natt > 0
+  /\ ~InSeq(CLOSE, app) /\ i = NSends + 1 /\ i <= MaxSends
+  /\ ~StreamDone(cur)                                   \* the transport write succeeds
+Park(i) ==
+  /\ ParkOK(i)
+  /\ app' = Append(app, i) /\ cur' = [cur EXCEPT !.sent = Append(@, i)]
+  /\ parked' = i /\ parkedAtt' = natt + 100 * nrpc /\ nops' = nops + 1
+  /\ UNCHANGED <<cfg, replay, bufSize, committed, finished, firstAtt, numRetries, sincePB, tokens, natt, nTransp,
+                 pc, opk, oparg, res, hdrDelivered, msgDelivered, lastDelay, sinceA, viol, nrpc, resend>>
+\* the parked SendMsg resumes while no other operation is running: withRetry re-takes cs.mu; if the attempt was
+\* replaced meanwhile the operation is run again on the current attempt, otherwise it is buffered for replay
+UnparkOK == pc = "idle" /\ parked # 0
+Unpark ==
+  /\ UnparkOK
+  /\ pc' = "run" /\ oparg' = parked /\ parked' = 0
+  /\ IF parkedAtt = natt + 100 * nrpc THEN opk' = "sendbuf" /\ resend' = FALSE
+                                      ELSE opk' = "send" /\ resend' = TRUE
+  /\ UNCHANGED <<cfg, app, replay, bufSize, committed, finished, firstAtt, numRetries, sincePB, tokens, natt, nTransp,
+                 cur, nops, res, hdrDelivered, msgDelivered, lastDelay, sinceA, viol, nrpc, parkedAtt>>
+\* the parked SendMsg resumes while the receiver is blocked on the current attempt (which has not answered): the
+\* stream is open, so re-running the write on it succeeds, and the operation is buffered
+UnparkInlineOK == /\ pc = "run" /\ parked # 0 /\ opk \in {"header", "recv"} /\ ~NeedAttempt /\ ~Responded(cur)
+UnparkInline ==
+  /\ UnparkInlineOK
+  /\ cur' = IF parkedAtt = natt + 100 * nrpc THEN cur ELSE [cur EXCEPT !.sent = Append(@, parked)]
+  /\ BufferOp(parked, MsgSize(parked)) /\ parked' = 0
+  /\ UNCHANGED <<cfg, app, finished, firstAtt, numRetries, sincePB, tokens, natt, nTransp, pc, opk, oparg, nops, res,
+                 hdrDelivered, msgDelivered, lastDelay, sinceA, viol, nrpc, parkedAtt, resend>>
+\* the next RPC on the same channel: everything is per RPC except the token bucket
+NewRPCOK == pc = "idle" /\ finished /\ parked = 0 /\ nrpc < MaxRPCs
+NewRPC ==
+  /\ NewRPCOK
+  /\ app' = <<>> /\ replay' = <<>> /\ bufSize' = 0 /\ committed' = FALSE /\ finished' = FALSE
+  /\ firstAtt' = TRUE /\ numRetries' = 0 /\ sincePB' = 0 /\ natt' = 0 /\ nTransp' = 0
+  /\ cur' = NoAtt /\ pc' = "run" /\ opk' = "start" /\ oparg' = 0 /\ nops' = 0 /\ res' = "none"
+  /\ hdrDelivered' = FALSE /\ msgDelivered' = FALSE /\ lastDelay' = <<"none", 0>> /\ sinceA' = 0
+  /\ nrpc' = nrpc + 1
+  /\ UNCHANGED <<cfg, tokens, viol, parked, parkedAtt, resend>>
 
 \* ---------------------------------------------------------------- invariants (the property)
 I_NoViol == viol = "none"          \* I_WhenRetry, I_Transparent, I_Commit (recorded when an attempt is created)
@@ -226,10 +288,10 @@ IsPrefix(s, t) == Len(s) <= Len(t) /\ \A j \in 1..Len(s) : s[j] = t[j]
 \* what the current attempt has been sent is what the application produced, in order; an attempt whose stream is
 \* still open at the client has been sent everything
 I_Replay == /\ IsPrefix(cur.sent, app)
-            /\ (pc = "idle" /\ natt > 0 /\ ~Responded(cur)) => cur.sent = app
+            /\ (pc = "idle" /\ natt > 0 /\ ~Responded(cur) /\ parked = 0) => cur.sent = app
             /\ (InSeq(CLOSE, cur.sent)) => cur.sent = app
 I_Commit == (hdrDelivered \/ msgDelivered \/ bufSize > cfg.bufLimit) => (committed /\ replay = <<>>)
-I_Tokens == tokens >= 0 /\ tokens <= cfg.thrMax
+I_Tokens == tokens >= 0 /\ tokens <= 2 * cfg.thrMax
 \* C19(a): the exponent of the backoff of a retry is the number of retries since the last pushback-delayed retry
 I_DelayIndex == lastDelay[1] = "backoff" => (lastDelay[2] = sinceA - 1 /\ lastDelay[2] < numRetries)
 ====
